@@ -146,6 +146,8 @@ pub struct MapPairs {
     pub limits: Limits,
     pub max_states: usize,
     pub wall_cap: f64,
+    /// scripted deep states (full load, tombstones) added to both state lists
+    pub extra: Vec<Vec<MapOp>>,
 }
 
 impl MapPairs {
@@ -192,8 +194,12 @@ impl Config for MapPairs {
         let obr = ob.as_ref().unwrap_or(&oa);
         let na = oa.states.min(self.max_states);
         let nb = obr.states.min(self.max_states);
-        let ha: Vec<Vec<MapOp>> = (0..na).map(|i| oa.history(i)).collect();
-        let hb: Vec<Vec<MapOp>> = (0..nb).map(|i| obr.history(i)).collect();
+        let covered_all = na == oa.states && nb == obr.states;
+        let mut ha: Vec<Vec<MapOp>> = (0..na).map(|i| oa.history(i)).collect();
+        let mut hb: Vec<Vec<MapOp>> = (0..nb).map(|i| obr.history(i)).collect();
+        ha.extend(self.extra.iter().cloned());
+        hb.extend(self.extra.iter().cloned());
+        let (na, nb) = (ha.len(), hb.len());
         let next = AtomicUsize::new(0);
         let stop = AtomicBool::new(false);
         let capped = AtomicBool::new(false);
@@ -248,13 +254,13 @@ impl Config for MapPairs {
             transitions: oa.transitions + ob.as_ref().map_or(0, |o| o.transitions),
             probes: checks.load(Ordering::Relaxed),
             executions: pairs.load(Ordering::Relaxed),
-            exhaustive: !capped.load(Ordering::Relaxed) && oa.exhaustive && obr.exhaustive && na == oa.states && nb == obr.states,
-            cap: if capped.load(Ordering::Relaxed) { Some(format!("wall cap {}s", self.wall_cap)) } else if na < oa.states || nb < obr.states { Some(format!("first {na} x {nb} states")) } else { None },
+            exhaustive: !capped.load(Ordering::Relaxed) && oa.exhaustive && obr.exhaustive && covered_all,
+            cap: if capped.load(Ordering::Relaxed) { Some(format!("wall cap {}s", self.wall_cap)) } else if !covered_all { Some(format!("first {na} x {nb} states")) } else { None },
             wall_s: t0.elapsed().as_secs_f64(),
             ..Default::default()
         };
         rep.detail = json!({
-            "states_target": oa.states, "states_source": obr.states, "ordered_pairs_checked": pairs.load(Ordering::Relaxed),
+            "states_target": oa.states, "states_source": obr.states, "scripted_deep_states_added": self.extra.len(), "ordered_pairs_checked": pairs.load(Ordering::Relaxed),
             "checks": checks.load(Ordering::Relaxed), "plan_target": self.ha.cfg.plan.name(), "plan_source": self.hb.cfg.plan.name(),
             "differently_seeded_hashers": self.hb.cfg.alt_hasher,
             "mechanisms_target_search": sa.mech_map(),
